@@ -24,6 +24,10 @@ import (
 type shape struct {
 	Hm   int `json:"hm"`
 	Body int `json:"body"`
+	// random scenarios only: the frame is written by the real Write for message number Kind built from Seed
+	// (written.go); Hm and Body are the lengths Write produced
+	Kind int   `json:"kind,omitempty"`
+	Seed int64 `json:"seed,omitempty"`
 }
 
 type scenario struct {
@@ -41,6 +45,8 @@ type frame struct {
 	// tiny: the body is too short to be a message. What is delivered for it is not judged (no peer sends it);
 	// it must be taken off the stream as one frame, without panic and without spinning.
 	tiny bool
+	// alone: for a frame from the real Write, what the real Read yields for exactly these bytes
+	alone interface{}
 }
 
 type kv struct{ k, v string }
@@ -125,6 +131,12 @@ func headMap(n int, r *rand.Rand) []kv {
 }
 
 func buildFrame(id int32, s shape, r *rand.Rand) frame {
+	if s.Kind > 0 {
+		if f, hm, body, ok := writeFrame(id, s.Hm, s.Kind, s.Seed); ok && hm == s.Hm && body == s.Body {
+			return f
+		}
+		common.Fatal("written frame kind %d seed %d is not reproducible", s.Kind, s.Seed)
+	}
 	hm := headMap(s.Hm, r)
 	m := map[string]string{}
 	for _, e := range hm {
@@ -290,6 +302,9 @@ func run(t *trace.T, frames []frame, junk []byte, cuts []int) {
 				break
 			}
 			eq := out < len(frames) && (frames[out].tiny || sameMsg(pkg, frames[out].msg))
+			if out < len(frames) && frames[out].alone != nil {
+				eq = reflect.DeepEqual(pkg, frames[out].alone)
+			}
 			t.Add("Parse", "res", "msg", "cn", n, "eq", eq, "sig", sig)
 			out++
 			if n <= 0 || n > len(buf) {
@@ -391,6 +406,13 @@ func main() {
 			}
 			if r.Intn(4) > 0 {
 				s.Body = 6 + r.Intn(300)
+			}
+			if j%2 == 1 && r.Intn(3) > 0 {
+				// a frame from the real Write (ids are reassigned in replay: the id is not part of the lengths)
+				kind, seed := 1+r.Intn(nWrittenKinds), r.Int63()
+				if _, hm, body, ok := writeFrame(1, s.Hm, kind, seed); ok {
+					s = shape{Hm: hm, Body: body, Kind: kind, Seed: seed}
+				}
 			}
 			sc.Frames = append(sc.Frames, s)
 		}
